@@ -985,6 +985,41 @@ impl Gen {
             self.pending_dump = true;
             return Some(Ev::Chunk(self.conn, gen::flush(op::FLUSH, Some(d1)).bytes()));
         }
+        if (fl == "cuts" || fl == "malformed") && self.rng.chance(1, 14) {
+            // a command that has no body announces one, and header and body arrive in different
+            // reads: the body is part of that request (skipped with it), whatever it looks like —
+            // here it looks like a complete store
+            self.count("header_only_command_with_a_body_in_the_next_read");
+            self.scripted += 1;
+            let key = format!("hb{}", self.scripted).into_bytes();
+            let inner = gen::set_like(op::SET, &key, b"smuggled", 0, 0).bytes();
+            let mut outer = Req::new(*self.rng.pick(&[op::NOOP, op::VERSION, op::STAT]));
+            outer.bodylen = Some(inner.len() as u32);
+            self.queue.push_back(Ev::Chunk(self.conn, inner));
+            self.queue.push_back(Ev::Chunk(self.conn, Req::new(op::GET).key(&key).bytes()));
+            self.pending_dump = true;
+            return Some(Ev::Chunk(self.conn, outer.bytes()));
+        }
+        if fl == "crowd" {
+            // many small records under a memory limit, now and then a large one: making room
+            // for it takes dozens of evictions
+            self.scripted += 1;
+            let r = self.rng.below(100);
+            let req = if r < 80 {
+                let key = format!("c{}", self.scripted).into_bytes();
+                let v = if self.rng.chance(1, 2) { vec![] } else { self.rng.bytes(2) };
+                gen::set_like(op::SET, &key, &v, 0, 0)
+            } else if r < 92 {
+                let n = (self.item_limit as usize * 3 / 4).max(16) + self.rng.below(40) as usize;
+                gen::set_like(op::SET, b"big", &vec![b'B'; n], 1, 0)
+            } else {
+                let k = 1 + self.rng.below(self.scripted as u64) as u32;
+                Req::new(op::GET).key(format!("c{}", k).as_bytes())
+            };
+            self.count("crowd_request");
+            self.pending_dump = true;
+            return Some(Ev::Chunk(self.conn, req.bytes()));
+        }
         let nreq = 1 + if self.rng.chance(if fl == "big" { 2 } else { 1 }, 4) { self.rng.below(4) as usize } else { 0 };
         let mut bytes = Vec::new();
         let mut starts: Vec<usize> = Vec::new();
